@@ -62,6 +62,11 @@ def _worker(args):
         return orig_rem(self)
 
     def check(self, *a):
+        if state["mode"] == "check-once":      # a single transient 'unknown' (the solver gives up on one call only)
+            state["n"] += 1
+            if state["k"] is not None and state["n"] == state["k"]:
+                return z3.unknown
+            return orig_check(self, *a)
         if state["mode"] == "check":
             state["n"] += 1
             if state["k"] is not None and state["n"] >= state["k"] and not state["dead"]:
@@ -92,8 +97,8 @@ def _worker(args):
     dl.Deadline.expired, dl.Deadline.remaining_ms, z3.Optimize.check = expired, remaining_ms, check
     try:
         for phase in ("inference", "preprocessing"):
-            for mode in ("deadline", "check"):
-                if mode == "check" and cfg[1] != "z3":
+            for mode in ("deadline", "check", "check-once"):
+                if mode != "deadline" and cfg[1] != "z3":
                     continue
                 r0 = run(mode, None, phase)
                 out["runs"].append(r0)
@@ -189,7 +194,7 @@ def run(tier, seed, broken_proof=False):
             uniq.append(v)
     return {"evaluations": evals, "distinct_nontrivial": len(nontriv),
             "rule": "per (multi-layer base, operator/back-end): unexpired runs with budgets to count the observation points, then one run per k with the k-th observation of the deadline an expiry "
-                    "(inference phase and preprocessing phase) and, for the z3 back-ends, the k-th Optimize.check() answering unknown; 6 degenerate budget settings; each followed by a call without budgets on the same manager; "
+                    "(inference phase and preprocessing phase) and, for the z3 back-ends, the k-th Optimize.check() answering unknown (persistently for that optimiser object, and once only); 6 degenerate budget settings; each followed by a call without budgets on the same manager; "
                     "non-trivial = one injected expiry point",
             "samples": samples, "strata": dict(strata), "traces_validated_against_impl": evals, "violations": uniq[:20]}
 
